@@ -280,11 +280,11 @@ var templates = []template{
 		return "t1 := time.Now().Add(time.Hour)\n" + note(g.Int()) + "d := t1.Sub(time.Now())\n" + note("d > 0")
 	}},
 	{check: "S1025", gen: func(g *gen) string {
-		switch g.rng.IntN(8) {
+		switch g.inst % 8 { // enumerated, not sampled
 		case 5, 6, 7:
 			// the cross product underlying type x method set: what %s prints is
 			// decided by Formatter > error > Stringer > underlying value
-			typ := g.pick("nerr", "berr", "nstr", "nfmt", "nboth", "bstr", "bplain")
+			typ := []string{"nerr", "berr", "nstr", "nfmt", "nboth", "bstr", "bplain"}[g.inst%7]
 			arg := "(" + g.Str() + ")"
 			if typ[0] == 'b' {
 				arg = "(" + g.Bytes() + ")"
